@@ -189,6 +189,10 @@ func (fc *FuncCtx) verifyBody(short string) {
 	pre := &Obligation{Name: short + "/pre-sat", Kind: "vacuity", Func: short, LogLen: len(fc.u.Log), Goal: "true", PC: "true", Unit: fc.u, Props: fc.props, WantSat: true, Desc: "requires ∧ assumed invariants ∧ axioms are satisfiable (the proof is not vacuous)"}
 	fc.u.Obls = append(fc.u.Obls, pre)
 
+	if con.Flags["paths"] != "" {
+		fc.verifyPaths(fr, st, entrySnap, short)
+		return
+	}
 	exit, results := fc.execFrame(fr, st)
 	if exit.dead {
 		if len(con.Ensures) > 0 {
@@ -353,4 +357,63 @@ func (e *Engine) VerifyLemma(lm *LemmaDecl) *Unit {
 		u.Obls = append(u.Obls, &Obligation{Name: name + "/unsupported", Kind: "unsupported", Func: name, Goal: "false", PC: "true", Unit: u, Props: lm.Props, Structural: true, StructOK: false, Note: strings.Join(u.Unsupported, "; ")})
 	}
 	return u
+}
+
+// verifyPaths: postconditions are checked at every return of every path separately.
+func (fc *FuncCtx) verifyPaths(fr *Frame, st *State, entrySnap *State, short string) {
+	fn, con := fc.fn, fc.con
+	rets := fc.execFramePaths(fr, st)
+	if len(rets) == 0 {
+		if len(con.Ensures) > 0 {
+			fc.driftf(fr, "function has no reachable return, but the contract has ensures clauses")
+		}
+		return
+	}
+	var pcs []string
+	for _, r := range rets {
+		pcs = append(pcs, r.st.pc)
+	}
+	cover := &Obligation{Name: short + "/cover.return", Kind: "vacuity", Func: short, LogLen: len(fc.u.Log), Goal: "true", PC: tOr(pcs...), Unit: fc.u, Props: fc.props, WantSat: true, Desc: "some return is reachable under the precondition"}
+	fc.u.Obls = append(fc.u.Obls, cover)
+	for pi, r := range rets {
+		vars := map[string]Value{}
+		for i, rn := range fr.resultNames {
+			if i < len(r.vals) {
+				vars[rn] = r.vals[i]
+			}
+		}
+		for _, gu := range con.AtExit {
+			ev := fc.newEnv(fr, r.st, entrySnap)
+			ev.useEntryParams = true
+			for k, v := range vars {
+				ev.vars[k] = v
+			}
+			fc.applyGhostUpdate(ev, r.st, gu)
+		}
+		for i, en := range con.Ensures {
+			ev := fc.newEnv(fr, r.st, entrySnap)
+			ev.useEntryParams = true
+			for k, v := range vars {
+				ev.vars[k] = v
+			}
+			g := ev.evalBool(en.E)
+			label := en.Label
+			if label == "" {
+				label = fmt.Sprintf("#%d", i+1)
+			}
+			o := fc.oblige(fr, r.st, "post", label+fmt.Sprintf(".path%d", pi+1), g, fn.Pos(), "postcondition (path "+fmt.Sprint(pi+1)+", return at "+fc.posStr(r.pos)+"): "+en.Src)
+			if o != nil {
+				fc.modelTerms(o, fr, r.vals)
+			}
+			fc.clauseHit[en]++
+		}
+	}
+	for _, ac := range con.AtCalls {
+		if ac.After && fc.afterHit[ac] == 0 {
+			fc.driftf(fr, "`after call %s` clause attached to no call site", ac.Callee)
+		}
+		if ac.Assert != nil && fc.clauseHit[ac.Assert] == 0 {
+			fc.driftf(fr, "`at call %s` clause attached to no call site", ac.Callee)
+		}
+	}
 }
